@@ -1865,7 +1865,7 @@ impl Tree {
     ) -> Result<NodeId, TreeError> {
         // Check that nodes are siblings
         let parent = self.get(child1)?.parent;
-        if parent != self.get(child2)?.parent {
+        if child1 == child2 || parent != self.get(child2)?.parent {
             return Err(TreeError::MergingNonSiblingNodes(*child1, *child2));
         }
 
